@@ -38,7 +38,7 @@ pub const ALL: &[Entry] = &[
     ("parse_dtls_record_with_header", |i, n| {
         let mut t = 0;
         for ct in [20u8, 21, 22, 23, (n & 0xff) as u8] {
-            let hdr = DTLSRecordHeader { content_type: TlsRecordType(ct), version: TlsVersion(0xfefd), epoch: 0, sequence_number: 0, length: n as u16 };
+            let hdr = crate::val::mk_dtls_header(ct, 0xfefd, n as u16);
             t += dbg(&parse_dtls_record_with_header(i, &hdr));
         }
         t
@@ -157,7 +157,7 @@ pub const ALL: &[Entry] = &[
         let mut t = 0;
         for ct in [20u8, 21, 22, 23, 24, (n & 0xff) as u8] {
             for len in [i.len() as u16, n as u16] {
-                let hdr = TlsRecordHeader { record_type: TlsRecordType(ct), version: TlsVersion(0x0303), len };
+                let hdr = crate::val::mk_header(ct, 0x0303, len);
                 t += dbg(&parse_tls_record_with_header(i, &hdr));
             }
         }
